@@ -253,7 +253,11 @@ def verify_certificate(
             service_identity.CertificateError,
             service_identity.VerificationError,
         ) as exc:
-            patterns = service_identity.cryptography.extract_patterns(certificate)
+            try:
+                patterns = service_identity.cryptography.extract_patterns(certificate)
+            except Exception:
+                # the same malformed name that failed the match (e.g. "*.com")
+                patterns = []
             if len(patterns) == 0:
                 errmsg = str(exc)
             elif len(patterns) == 1:
@@ -265,6 +269,12 @@ def verify_certificate(
                 )
 
             raise AlertBadCertificate(errmsg) from exc
+        except Exception as exc:
+            # certificate.extensions could not be parsed (ValueError,
+            # x509.DuplicateExtension, x509.UnsupportedGeneralNameType, ...)
+            raise AlertBadCertificate(
+                "Could not parse the certificate's extensions"
+            ) from exc
 
     # load CAs
     store = crypto.X509Store()
